@@ -45,7 +45,7 @@ META = {
     "level_note": "Trusted: is_maybe_subtype as the definition of compatibility (C25), Python dict/set semantics of the recomputation.",
 }
 PLAN = {
-    "quick": {"shards": 16, "examples": 800, "shrink_sigs": 3, "shrink_calls": 100, "shrink_seconds": 15},
+    "quick": {"shards": 16, "examples": 640, "shrink_sigs": 3, "shrink_calls": 100, "shrink_seconds": 15},
     "thorough": {"shards": 16, "examples": 40000, "timeout": 3000},
 }
 
